@@ -32,9 +32,10 @@ VARIABLES l,        \* next line
           viol,     \* set of property violations found
           ndiv, divs, dflag,  \* diverged executions: count, first few, current flag
           ncases,
-          kinds     \* how many steps of each kind (StepKinds) were seen: vacuity guard
+          kinds,    \* how many steps of each kind (StepKinds) the model took: vacuity guard of the behaviours
+          okinds    \* the same classification on the reported states (evidence)
 
-tvars == <<vars, l, cid, cl, obs, viol, ndiv, divs, dflag, ncases, kinds>>
+tvars == <<vars, l, cid, cl, obs, viol, ndiv, divs, dflag, ncases, kinds, okinds>>
 
 KindNames == {"change", "direct", "held", "fired", "cascade2", "discarded", "subsumed", "demoted", "outOfScope", "echo", "conflict"}
 
@@ -51,7 +52,7 @@ TInit ==
     /\ lv = InitLv("blank") /\ init0 = lv /\ pp = {} /\ policy = "None" /\ hist = <<>>
     /\ l = 1 /\ cid = "" /\ cl = 0 /\ obs = [lv |-> lv, pp |-> pp] /\ viol = {}
     /\ ndiv = 0 /\ divs = <<>> /\ dflag = FALSE /\ ncases = 0
-    /\ kinds = [n \in KindNames |-> 0]
+    /\ kinds = [n \in KindNames |-> 0] /\ okinds = [n \in KindNames |-> 0]
 
 ResetStep(ln) ==
     /\ policy' = ln.policy
@@ -61,7 +62,7 @@ ResetStep(ln) ==
     /\ viol' = viol \cup {[case |-> ln.case, line |-> l, step |-> 0, prop |-> p, e |-> "Reset"] :
                              p \in {q \in {"Justified", "HeldOnlyScoped"} :
                                        (q = "Justified" /\ ln.xk # 0) \/ (q = "HeldOnlyScoped" /\ (ln.xp # 0 \/ ln.pp # <<>>))}}
-    /\ UNCHANGED <<init0, hist, ndiv, divs, kinds>>
+    /\ UNCHANGED <<init0, hist, ndiv, divs, kinds, okinds>>
 
 OpStep(ln) ==
     LET ev == EvOf(ln)
@@ -70,13 +71,15 @@ OpStep(ln) ==
         bad == Failed(obs, ev, post)
                  \cup (IF ln.xk # 0 THEN {"Justified"} ELSE {})
                  \cup (IF ln.xp # 0 THEN {"HeldOnlyScoped"} ELSE {})
-        ks == StepKinds(obs, ev, post)
+        ks == StepKinds(St, ev, m)
+        oks == StepKinds(obs, ev, post)
         d == (m # post) \/ ~ln.fin
     IN
     /\ lv' = m.lv /\ pp' = m.pp
     /\ obs' = post
     /\ viol' = viol \cup {[case |-> cid, line |-> l, step |-> l - cl, prop |-> p, e |-> ln.e] : p \in bad}
     /\ kinds' = [n \in KindNames |-> IF n \in ks THEN kinds[n] + 1 ELSE kinds[n]]
+    /\ okinds' = [n \in KindNames |-> IF n \in oks THEN okinds[n] + 1 ELSE okinds[n]]
     /\ dflag' = (dflag \/ d)
     /\ ndiv' = IF d /\ ~dflag THEN ndiv + 1 ELSE ndiv
     /\ divs' = IF d /\ ~dflag /\ Len(divs) < 10
@@ -94,6 +97,6 @@ TNext ==
 
 TSpec == TInit /\ [][TNext]_tvars
 
-Summary == [cases |-> ncases, lines |-> l - 1, viol |-> viol, ndiv |-> ndiv, divs |-> divs, kinds |-> kinds]
+Summary == [cases |-> ncases, lines |-> l - 1, viol |-> viol, ndiv |-> ndiv, divs |-> divs, kinds |-> kinds, okinds |-> okinds]
 Done == l <= Len(TraceLog) \/ CSVWrite("%1$s", <<ToJson(Summary)>>, IOEnv.QXV_SUMMARY)
 =============================================================================
